@@ -983,6 +983,8 @@ def call_ext(ev, dotted, args, kwargs, node):
         fn = dotted.split(".", 1)[1]
         ev.event("lib", callee=dotted, args=[as_v(ev, a) for a in args], kwargs={k: as_v(ev, v) for k, v in kwargs.items()}, node=node)
         return App("pd." + fn, [as_v(ev, a) for a in args], _kw(ev, kwargs))
+    if dotted == "types.MappingProxyType" and len(args) == 1 and not kwargs:
+        return args[0]      # a read-only view of the mapping: the same lookups
     if dotted.startswith("typing.") or dotted.startswith("collections.abc."):
         return App("type:" + dotted, ())
     ev.note_unmodelled(dotted, node)
@@ -1504,6 +1506,10 @@ def contains(ev, container, item, node=None):
 
     if isinstance(container, App) and container.fn == "set":
         if isinstance(item, (Const, EnumM)) and all(isinstance(a, (Const, EnumM)) for a in container.args):
+            if any(isinstance(a, EnumM) for a in list(container.args) + [item]):
+                rs = [ev.compare("Eq", item, a, node) for a in container.args]      # members of mixin enums equal their plain values
+                if all(isinstance(r, Const) for r in rs):
+                    return Const(any(r.value for r in rs))
             return Const(any(a == item for a in container.args))
         return disj([compare("==", item, a) for a in container.args]) if isinstance(item, V) else App("in", (as_v(ev, item), container))
     if isinstance(container, (Lst, Tup)):
